@@ -12,7 +12,7 @@ base=/tmp/vfs/$name
 case "$cmd" in
  new)
   mkdir -p "$base"
-  git -C /repo worktree add --detach "$base/repo" HEAD >/dev/null
+  git -C /repo worktree add -q --detach "$base/repo" HEAD >/dev/null 2>&1
   mkdir -p "$base/verif"
   rsync -a --exclude 'target' --exclude 'target-*' --exclude '.git' --exclude 'evidence' --exclude 'replays' /verif/ "$base/verif/"
   mkdir -p "$base/verif/evidence"
